@@ -42,7 +42,10 @@ SPEC = dict(
         ("*", "hoeffding_error_bound", "num_values"): INT, ("*", "update_cut_point", "epsilon_z"): NUM,
         ("*", "__init__", "lambda_"): NUM, ("*", "update_stats", "value"): NUM, ("*", "update_stats", "alpha"): NUM,
         ("SampleInfo", "update", "value"): NUM,
+        ("STEPD", "_update", "value"): BOOL,  # the error stream: 0/1 (False/True)
     },
+    # calls on these attributes are uninterpreted functions (section variables of the generated file)
+    oracles={("STEPD", "_distribution", "sf"): "norm_sf"},
     layouts={
         "CUSUM": _cusum_layout("CUSUMConfig"),
         "PageHinkley": _cusum_layout("PageHinkleyConfig"),
@@ -66,6 +69,9 @@ SPEC = dict(
                  ("_additional_vars.min_error_rate", NUMX), ("_additional_vars.min_std", NUMX), ("_additional_vars.warning", BOOL),
                  ("_additional_vars.num_warnings", INT), ("_additional_vars.rddm_drift", BOOL),
                  ("_additional_vars.predictions", obj("CircularQueue", NUM))],
+        "STEPD": [("_config", obj("STEPDConfig")), ("_num_instances", INT), ("drift", BOOL),
+                  ("_additional_vars.correct_total", INT), ("_additional_vars.window_accuracy", obj("AccuracyQueue")),
+                  ("_warning", BOOL), ("_min_num_instances", INT)],
         "ECDDWT": [("_config", obj("ECDDWTConfig")), ("_num_instances", INT), ("drift", BOOL), ("_additional_vars.p", obj("Mean")),
                    ("_additional_vars.z", obj("EWMA")), ("_additional_vars.warning", BOOL), ("_lambda_div_two_minus_lambda", NUM)],
     },
@@ -93,6 +99,7 @@ UNITS = [
     ("ECDDWT", "_update"), ("ECDDWT", "reset"),
     ("EDDM", "_update"), ("EDDM", "reset"),
     ("RDDM", "_update"), ("RDDM", "reset"),
+    ("STEPD", "_update"), ("STEPD", "reset"),
     ("HDDMA1", "_update"), ("HDDMA1", "reset"), ("HDDMA2", "_update"), ("HDDMA2", "reset"),
     ("HDDMW1", "_update"), ("HDDMW1", "reset"), ("HDDMW2", "_update"), ("HDDMW2", "reset"),
 ]
@@ -107,6 +114,7 @@ EQ = {
     "C02": _HIST,  # reset() = where a fresh history starts, over the generated code
     "C03": ["EqStats.v", "EqSPC.v", "EqRDDM.v"],
     "C04": ["EqStats.v", "EqHDDM.v", "EqHDDMW.v"],
+    "C06": ["EqStats.v", "EqSTEPD.v"],
 }
 
 
